@@ -186,7 +186,15 @@ class RulesMixin:
         elem_ty = spec
 
         def mk(interp, m, key):
-            return interp.make_symbolic(elem_ty, f"{m.name}[{key}]")
+            v = interp.make_symbolic(elem_ty, f"{m.name}[{key}]")
+            if isinstance(v, SObj):
+                cc = interp.class_contract(v)
+                if cc is not None:
+                    # objects found in a container have been published: their published
+                    # invariant holds (it is proved whenever this unit stores / changes one)
+                    for cl in cc.published_inv:
+                        interp.assume_clause(cl, {"self": v}, None, None, f"published {cl.name}")
+            return v
 
         return SymMap(nm, has, mk, size=size)
 
@@ -623,6 +631,7 @@ class RulesMixin:
                     v = self.spec_eval(cl, {"self": us}, None)
                     ctx.prove(f"{unit}.yield.{cl.name}", self.as_z3_bool(v), cl.text, fr.where(), note=f"invariant before yield ({why})", props=cl.props)
                 self.check_guarantee(fr.where(), why)
+                self.prove_published(fr.where())
         self.havoc_all(use_rely=True)
         if us is not None:
             self.segment_start = self.snapshot_env({"self": us})
@@ -673,6 +682,25 @@ class RulesMixin:
                     stack.extend(f.locals.values())
                     f = f.parent
         return seen
+
+    def prove_published(self, where):
+        """every object held in a container field of the unit object satisfies its published
+        invariant whenever other tasks can look"""
+        us = self.unit_self
+        unit = getattr(self, "unit_name", "?")
+        if us is None:
+            return
+        for f, v in us.fields.items():
+            if isinstance(v, SymMap):
+                for (k, el) in v.cache:
+                    if isinstance(el, SObj):
+                        cc = self.class_contract(el)
+                        if cc is None:
+                            continue
+                        stored = z3.Select(v.has, k)
+                        for cl in cc.published_inv:
+                            val = self.spec_eval(cl, {"self": el}, None)
+                            self.ctx.prove(f"{unit}.published.{cl.name}", z3.Implies(stored, self.as_z3_bool(val)), cl.text, where, note=f"published invariant of an element of self.{f}", props=cl.props)
 
     def havoc_all(self, use_rely=True):
         reach = self.reachable_objects()
